@@ -44,11 +44,15 @@ pub struct Scenario {
     /// with `via_config`: 1 = the df filter is given on the command line instead of in the file, 2 = the aircraft
     /// filter is (the command line overrides the file option by option; the other filter stays in the file)
     pub split: u8,
+    /// with `via_config`: write the sources in the long table form `tcp = { address = "127.0.0.1", port = N }`
+    pub long_table: bool,
     /// addresses whose stored history (`/track?icao24=`) is fetched once everything has been processed
     pub track: Vec<u32>,
 }
 
 pub struct Outcome {
+    /// the TCP ports the sources were served on (in source order)
+    pub ports: Vec<u16>,
     /// `/track?icao24=` per requested address (null when the aircraft is unknown)
     pub tracks: std::collections::BTreeMap<u32, Value>,
     /// stdout lines
@@ -168,7 +172,11 @@ pub fn play(env: &Env, sc: &Scenario, tag: &str) -> Result<Outcome, Fail> {
             t += &format!("output = \"{}\"\n", out_file.to_str().unwrap());
         }
         for (port, r) in ports.iter().zip(sc.references.iter()) {
-            t += &format!("\n[[sources]]\ntcp = \"127.0.0.1:{port}\"\n");
+            if sc.long_table {
+                t += &format!("\n[[sources]]\ntcp = {{ address = \"127.0.0.1\", port = {port} }}\n");
+            } else {
+                t += &format!("\n[[sources]]\ntcp = \"127.0.0.1:{port}\"\n");
+            }
             if let Some((la, lo)) = r {
                 t += &format!("latitude = {la:?}\nlongitude = {lo:?}\n");
             }
@@ -337,7 +345,7 @@ pub fn play(env: &Env, sc: &Scenario, tag: &str) -> Result<Outcome, Fail> {
     let file_lines = if sc.with_file { Some(std::fs::read_to_string(&out_file).unwrap_or_default().lines().map(|s| s.to_string()).collect()) } else { None };
     let _ = std::fs::remove_dir_all(&dir);
     let lines = lines.lock().unwrap().clone();
-    Ok(Outcome { lines, file_lines, table, tracks })
+    Ok(Outcome { ports, lines, file_lines, table, tracks })
 }
 
 /// play a scenario; a process that dies is given the scenario once more, a second death is reported as `Died`
@@ -352,7 +360,7 @@ pub fn scenario_json(sc: &Scenario) -> Value {
     serde_json::json!({
         "references": sc.references.iter().map(|r| r.map(|(a, o)| vec![a, o])).collect::<Vec<_>>(),
         "sends": sc.sends.iter().map(|s| serde_json::json!([s.source, hex::encode(&s.frame), s.pause_ms, s.cut])).collect::<Vec<_>>(),
-        "df_filter": sc.df_filter, "aircraft_filter": sc.aircraft_filter, "dedup_ms": sc.dedup_ms, "update_position": sc.update_position, "with_file": sc.with_file, "via_config": sc.via_config, "split": sc.split, "track": sc.track,
+        "df_filter": sc.df_filter, "aircraft_filter": sc.aircraft_filter, "dedup_ms": sc.dedup_ms, "update_position": sc.update_position, "with_file": sc.with_file, "via_config": sc.via_config, "split": sc.split, "long_table": sc.long_table, "track": sc.track,
     })
 }
 
@@ -367,6 +375,7 @@ pub fn scenario_of(v: &Value) -> Scenario {
         with_file: v["with_file"].as_bool().unwrap_or(false),
         via_config: v["via_config"].as_bool().unwrap_or(false),
         split: v["split"].as_u64().unwrap_or(0) as u8,
+        long_table: v["long_table"].as_bool().unwrap_or(false),
         track: v["track"].as_array().map(|a| a.iter().map(|x| x.as_u64().unwrap_or(0) as u32).collect()).unwrap_or_default(),
     }
 }
